@@ -428,10 +428,13 @@ class C11(F.PropCheck):
                 v.append('T: %s at %d us (enabled %#x, highest multiplicity %d): triggers %s, expected %s' % (what, t0, a, M, got, exp)); break
             if loc != exploc:
                 v.append('T: %s at %d us: %d local relay actions, expected %d' % (what, t0, loc, exploc)); break
-            if regd and regd[0] < w0:
-                wg = [x for (t, x) in wats if t0 <= t <= w1 + 5 * CYC]
-                if wg != got:
-                    v.append('T: %s at %d us: action-trigger frames on the wire %s differ from the calls %s' % (what, t0, wg, got)); break
+        # the frames on the wire are the calls made while registered, in order (the tail may still be queued)
+        if regd and not v:
+            allt = [(i[0], i[2]) for (kd, i, a) in seq if kd == 'TRIG']
+            allw = [i[2] for (kd, i, a) in seq if kd == 'WAT']
+            calls = [(t, x) for (t, x) in allt if t >= regd[0]]
+            if allw != [x for (t, x) in calls[:len(allw)]] or any(t < tend - MC for (t, x) in calls[len(allw):]):
+                v.append('T: action-trigger frames on the wire %s differ from the calls made while registered %s' % (allw[:8], [x for (t, x) in calls[:8]]))
         return v
 
     def finding_key(self, case, what):
